@@ -1,0 +1,75 @@
+//! Verification hooks, compiled only with the `verif` cargo feature.
+//!
+//! An in-process event tracer (off unless `start` was called), named crash
+//! points armed through `ORD_VERIF_CRASH=<name>:<occurrence>`, and thin public
+//! wrappers around crate-private functions used by the external conformance
+//! harness. Nothing here changes behaviour when the tracer is off and no crash
+//! point is armed.
+
+use {
+  serde_json::{Value, json},
+  std::{
+    collections::BTreeMap,
+    sync::{
+      Mutex,
+      atomic::{AtomicU64, Ordering},
+    },
+  },
+};
+
+static SEQ: AtomicU64 = AtomicU64::new(0);
+static SINK: Mutex<Option<Vec<Value>>> = Mutex::new(None);
+static CRASH_COUNTS: Mutex<BTreeMap<String, u64>> = Mutex::new(BTreeMap::new());
+
+/// Install an empty event sink; events are recorded until `take`.
+pub fn start() {
+  *SINK.lock().unwrap() = Some(Vec::new());
+}
+
+/// Remove the sink and return the recorded events.
+pub fn take() -> Vec<Value> {
+  SINK.lock().unwrap().take().unwrap_or_default()
+}
+
+/// Return the recorded events, leaving the sink installed and empty.
+pub fn drain() -> Vec<Value> {
+  match SINK.lock().unwrap().as_mut() {
+    Some(events) => std::mem::take(events),
+    None => Vec::new(),
+  }
+}
+
+/// Record `{"e": name, "n": seq, ..fields}` if a sink is installed.
+pub fn emit(name: &str, fields: Value) {
+  let mut sink = SINK.lock().unwrap();
+  if let Some(events) = sink.as_mut() {
+    let mut event = json!({"e": name, "n": SEQ.fetch_add(1, Ordering::SeqCst)});
+    if let (Some(event), Some(fields)) = (event.as_object_mut(), fields.as_object()) {
+      for (key, value) in fields {
+        event.insert(key.clone(), value.clone());
+      }
+    }
+    events.push(event);
+  }
+}
+
+/// Abort the process at the `occurrence`-th visit (counting from 1) of the
+/// crash point named in `ORD_VERIF_CRASH=<name>:<occurrence>`.
+pub fn crash_point(name: &str) {
+  let Ok(armed) = std::env::var("ORD_VERIF_CRASH") else {
+    return;
+  };
+  let Some((armed_name, occurrence)) = armed.rsplit_once(':') else {
+    return;
+  };
+  if armed_name != name {
+    return;
+  }
+  let mut counts = CRASH_COUNTS.lock().unwrap();
+  let count = counts.entry(name.into()).or_insert(0);
+  *count += 1;
+  if occurrence.parse::<u64>().ok() == Some(*count) {
+    eprintln!("ORD_VERIF_CRASH at {name}:{count}");
+    std::process::abort();
+  }
+}
